@@ -16,6 +16,7 @@ import (
 	"fmt"
 	"math/rand"
 	"os"
+	"regexp"
 	"runtime/debug"
 	"sort"
 	"strings"
@@ -315,6 +316,9 @@ func main() {
 	}
 }
 
+var verdictQuoted = regexp.MustCompile(`"(?:[^"\\]|\\.)*"`)
+var verdictDigits = regexp.MustCompile(`[0-9]+`)
+
 // shrink greedily removes runes (or bytes) from the arguments of a failing
 // case while the property oracle keeps failing with the same known-class.
 func shrink(s *stream, args []string) []string {
@@ -325,8 +329,25 @@ func shrink(s *stream, args []string) []string {
 		return s.known(a)
 	}
 	want := class(args)
+	// the failure must stay the same failure: same known-class and same wording once the quoted inputs and
+	// the numbers are taken out of the verdict (a shrunk text that fails for another reason is no witness of
+	// this one: a grammar-conforming text cut to "" is still "rejected", but no longer grammar-conforming)
+	shape := func(v string) string {
+		v = verdictQuoted.ReplaceAllString(v, `""`)
+		v = verdictDigits.ReplaceAllString(v, "0")
+		if len(v) > 90 {
+			v = v[:90]
+		}
+		return v
+	}
+	first := safeProp(s, args)
+	wantShape := shape(first)
+	if strings.HasPrefix(first, "FAIL grammar-conforming text") {
+		return args // the premise (the text was assembled from grammar-conforming parts) does not survive cutting
+	}
 	failing := func(a []string) bool {
-		return strings.HasPrefix(safeProp(s, a), "FAIL") && class(a) == want
+		v := safeProp(s, a)
+		return strings.HasPrefix(v, "FAIL") && class(a) == want && shape(v) == wantShape
 	}
 	norm := func(a []string) []string {
 		if s.normalize != nil {
